@@ -1077,7 +1077,7 @@ namespace
 
 namespace BitSerializer::MsgPack::Detail
 {
-	CMsgPackStreamReader::CMsgPackStreamReader(std::istream& inputStream, const SerializationOptions& serializationOptions) noexcept
+	CMsgPackStreamReader::CMsgPackStreamReader(std::istream& inputStream, const SerializationOptions& serializationOptions)
 		: mBinaryStreamReader(inputStream)
 		, mSerializationOptions(serializationOptions)
 	{ }
